@@ -182,6 +182,11 @@ func (s *Session) newEngine() *engine.DefaultEngine {
 					r.FlagSet = append(r.FlagSet, 6)
 				}
 			}
+			for _, at := range f.ErrAt {
+				if at == n {
+					return resource.Result{}, fmt.Errorf("first function fails (call %d)", n)
+				}
+			}
 			return r, nil
 		})
 	}
